@@ -15,7 +15,7 @@ pub fn plan() -> Plan {
         meta: Meta {
             property: "C13",
             level: "exploration",
-            rule: "bounded-liveness probe after random call sequences: a history over the whole public API (data operations, try_* lifecycle calls, create/close/restore_active_blob_in_background in states where they do and do not apply, force_update_active_blob with predicates true / false / records>2, free_excess_resources, offload, fsync, restarts) runs on a storage with a record limit of 5 per blob; then the probe: (i) Storage::verif_worker_alive() - the worker task has not finished (timing-free); (ii) the active blob is filled beyond its record limit, the 200 ms rotation debounce is waited out once, at most 3 more records are written, each followed by a worker barrier: next_blob_id must have advanced and the previous blob must be closed; (iii) after barriers every non-empty closed blob has an index file: first without flushing deferred dumps (the worker's own timers must fire, bounded by 3 s of polling = 1000x the configured deferred maximum), plus a dedicated scenario in which try_close_active_blob requests a dump while the previous dump task is still running (its index write delayed 20-60 ms through an H1 failpoint): the request must still be served; (iv) close() returns (20 s watchdog; its firing is a violation only together with a dead worker, otherwise inconclusive). Non-trivial = history containing a background request that did not apply in its state, or a deferred dump; distinct = hash(history).",
+            rule: "bounded-liveness probe after random call sequences: a history over the whole public API (data operations, try_* lifecycle calls, create/close/restore_active_blob_in_background in states where they do and do not apply, force_update_active_blob with predicates true / false / records>2, free_excess_resources, offload, fsync, restarts) runs on a storage with a record limit of 5 per blob; then the probe: (i) Storage::verif_worker_alive() - the worker task has not finished (timing-free); (ii) the active blob is filled beyond its record limit, the 200 ms rotation debounce is waited out once, at most 3 more records are written, each followed by a worker barrier: next_blob_id must have advanced and the previous blob must be closed; (iii) after barriers every non-empty closed blob has an index file: first without flushing deferred dumps (the worker's own timers must fire, bounded by 3 s of polling = 1000x the configured deferred maximum), plus a dedicated scenario in which try_close_active_blob requests a dump while the previous dump task is still running (its index write delayed 20-60 ms through an H1 failpoint): the request must still be served; (iv) close() returns: while it is pending the I/O tap's in-flight counter and event count are sampled every 50 ms; 'pending, nothing in flight and no file operation during >=100 samples over 8 s' is reported as a hang, a watchdog firing while I/O still happens is inconclusive. Non-trivial = history containing a background request that did not apply in its state, or a deferred dump; distinct = hash(history).",
             assumptions: vec!["liveness is restated as bounded progress: N further operations + worker barriers; the only real-time waits are pearl's own 200 ms debounce and the deferred-dump timers", "verdict holds for the histories generated for this seed"],
         },
         shards: 16,
@@ -154,10 +154,14 @@ async fn run(l: &mut Loose<8>, ops: &[Op], pred_gt: &[bool]) -> Out {
         } else if let Op::Restart { lazy, .. } = op {
             // close with a watchdog: a hang here is the property's business
             let st = l.storage.take().unwrap();
-            match tokio::time::timeout(Duration::from_secs(20), st.close()).await {
-                Ok(_) => {}
-                Err(_) => {
-                    out.inconclusive = Some(format!("close() did not return within 20 s at step {} ({})", i, op.short()));
+            match crate::drive::close_monitored(st, &l.dir, 8).await {
+                crate::drive::CloseOutcome::Returned(_) => {}
+                crate::drive::CloseOutcome::HungQuiescent(n) => {
+                    out.violation = Some(("close-hangs".into(), format!("close() at step {} ({}) did not return although no I/O was in flight and no file operation happened during {} samples over 8 s", i, op.short(), n)));
+                    return out;
+                }
+                crate::drive::CloseOutcome::HungBusy => {
+                    out.inconclusive = Some(format!("close() did not return within 8 s at step {} ({}) while I/O was still happening", i, op.short()));
                     return out;
                 }
             }
@@ -247,16 +251,14 @@ async fn run(l: &mut Loose<8>, ops: &[Op], pred_gt: &[bool]) -> Out {
         out.violation = Some(("closed-blob-without-index-after-barrier".into(), format!("closed blobs {:?} have no index file after rotation and a flushing worker barrier", missing)));
     }
     // (iv) close returns
-    let alive = s.verif_worker_alive();
     let st = l.storage.take().unwrap();
-    match tokio::time::timeout(Duration::from_secs(20), st.close()).await {
-        Ok(_) => {}
-        Err(_) => {
-            if !alive {
-                out.violation = Some(("close-hangs-with-dead-worker".into(), "close() did not return within 20 s and the worker is dead".into()));
-            } else {
-                out.inconclusive = Some("close() did not return within 20 s (worker alive)".into());
-            }
+    match crate::drive::close_monitored(st, &l.dir, 8).await {
+        crate::drive::CloseOutcome::Returned(_) => {}
+        crate::drive::CloseOutcome::HungQuiescent(n) => {
+            out.violation = Some(("close-hangs".into(), format!("close() did not return although no I/O was in flight and no file operation happened during {} samples over 8 s", n)));
+        }
+        crate::drive::CloseOutcome::HungBusy => {
+            out.inconclusive = Some("close() did not return within 8 s while I/O was still happening".into());
         }
     }
     out
